@@ -259,9 +259,13 @@ def clause_wiring(R):
         if not E.ctx.quiet:
             calls.append(x)
 
+    newargs = []
+
     def m_new(E, st, fr, bi, callee, args, dest_ty):
         a = args[0]
         labs = st.taint.get(a.vid) if type(a) is I else None
+        if type(a) is I and labs and not E.ctx.quiet:
+            newargs.append((labs, st.itv[a.vid], st.prov.get(a.vid, (None,))[0]))
         if not labs and type(a) is I:
             p = st.prov.get(a.vid)
             if p and p[0] == "f2i" and isinstance(p[2], tuple) and p[2][0] == "round" and isinstance(p[2][1], str):
@@ -380,6 +384,15 @@ def clause_wiring(R):
                 f"the transform of k is reached again after an update ({len(ntt_k)} abstract evaluations: first pass and the joined later passes)",
                 f"the quotient is computed only once ({len(ntt_k)} abstract evaluation): every path leaves the loop after the first update, so (F, G) is returned without the confirming pass and need not be reduced",
                 key="exit|iterates")
+    # the coefficients of f and g enter the modular side as they are: the value handed to U32Field::new is the input coefficient
+    # itself (any value of the input range), not a narrowed copy (`as i8`, a clamp) — the float side uses the true f, g, so a
+    # narrowed copy makes the integer side subtract k times something else
+    raw_in = [(l, itv, pv) for (l, itv, pv) in newargs if len(l) == 1 and next(iter(l)).split("[")[0] in ("f", "g")]
+    narrowed = [(sorted(l)[0], itv, pv) for (l, itv, pv) in raw_in if itv != (-B, B)]
+    R.check(bool(raw_in) and not narrowed, "C17-wiring", site + " embedding of f, g",
+            f"{len(raw_in)} coefficient(s) of f, g reach U32Field::new with their full range [-2^23, 2^23]",
+            (f"coefficient {narrowed[0][0]} reaches U32Field::new as a value in {narrowed[0][1]} ({narrowed[0][2]}): narrowed on the way, the modular side works with a different f, g than the float side"
+             if narrowed else "no coefficient of f, g reaches U32Field::new as itself (it is converted through some other path first)"), key="w|embed")
     hm = {c[1]: c[2] for c in calls if c[0] == "hmul"}
     it = {c[1]: c[2] for c in calls if c[0] == "intt"}
     ok = len(hm) == 2 and len(it) == 2 and ntt_f and ntt_g and ntt_k
